@@ -45,7 +45,8 @@ def desc_matches(desc, cells):
         if desc["kind"] == "date":
             ints = [int(x) for x in re.findall(r"\d+", " ".join(cells))]
             ax = desc.get("axis_name")
-            full = [desc["y"], desc["m"], desc["d"], desc["H"], 0, 0]
+            u = int(desc.get("unixtime", 0))
+            full = [desc["y"], desc["m"], desc["d"], desc["H"], (u % 3600) // 60, u % 60]
             want = {"time": full, "year": full[:1], "month": full[:2], "day": full[:3], "week": full[:1]}[ax]
             got = ints[:len(want)]
             return None if got == want else "descriptor %r does not denote %r" % (cells, want)
